@@ -113,6 +113,18 @@ You can provide input either as a file (as the first argument) or by piping logs
 				fmt.Fprintln(os.Stderr, "Error: When using Atlas parameters, --outputFile (-o) must be specified.")
 				os.Exit(1)
 			}
+			// Validation: Atlas mode needs a project and a cluster to read from
+			if atlasParamsSet && (atlasProjectId == "" || atlasClusterName == "") {
+				fmt.Fprintln(os.Stderr, "Error: Atlas parameters require both --atlasProjectId and --atlasClusterName.")
+				os.Exit(1)
+			}
+			// Validation: Atlas mode needs an API key pair (flags or environment); checked here,
+			// before the output file or an encryption key file is created
+			atlasKeyPairMissing := (atlasPublicKey == "" && os.Getenv("ATLAS_PUBLIC_KEY") == "") || (atlasPrivateKey == "" && os.Getenv("ATLAS_PRIVATE_KEY") == "")
+			if atlasParamsSet && atlasKeyPairMissing {
+				fmt.Fprintln(os.Stderr, "Error: Atlas public/private key not set. Please provide --atlasPublicKey and --atlasPrivateKey or set ATLAS_PUBLIC_KEY and ATLAS_PRIVATE_KEY environment variables.")
+				os.Exit(1)
+			}
 			if !atlasParamsSet && len(args) == 1 && stdinHasData {
 				fmt.Fprintln(os.Stderr, "Error: Cannot provide both a file and piped input. Please provide only one source.")
 				os.Exit(1)
